@@ -200,7 +200,11 @@ def r19_3(run):
     nd = any(_key2(x) == _key2(wantn) for e in rgp.events for t in ([getattr(e, "value", ())] if e.kind != "call" else [e.term]) for x in _walk2(t))
     run.ob("get_pressure|exponents", nd, "exponents run from len(reg_par)-1 down to 0", w)
     rf = ix.func(ST + ".regression_function")
-    run.ob("regression_function|polyfit", "np.polyfit(x_values, y_values, degree)" in U(rf.node), "regression parameters are numpy.polyfit coefficients (highest power first)", run.where(rf, rf.node))
+    _pn = [a.arg for a in rf.node.args.args]
+    _fit = [c for c in calls(rf.node) if U(c.func).endswith("polyfit")]
+    run.ob("regression_function|polyfit", bool(_fit) and all(len(c.args) >= 2 and [U(a) for a in c.args[:2]] == _pn[:2] and
+                                                               (U(c.args[2]) if len(c.args) > 2 else next((U(k.value) for k in c.keywords if k.arg == "deg"), None)) == _pn[2]
+                                                               for c in _fit), "regression parameters are numpy.polyfit coefficients (highest power first)", run.where(rf, rf.node))
     run.floor(6)
 
 
